@@ -414,8 +414,9 @@ def extract_fn(src, selector, spec):
                      ('decreases', spec.decreases)):
         if txt.strip():
             contract += '\n    %s\n%s' % (kwd, txt.rstrip('\n'))
-            if not contract.rstrip().endswith(','):
-                contract += ','
+            last = contract.rstrip().split('\n')[-1]
+            if not re.sub(r'//.*$', '', last).rstrip().endswith(','):
+                contract += '\n,'
     if body is None or spec.nobody:
         b = toks[sig_end].start
         text, lm = apply_edits(src, a, b, _with(ed, b, contract + '\n;' if contract else ';'))
